@@ -234,39 +234,33 @@ func purityRun(args []string) error {
 	}
 	// ONE exchange object served in several versions (b2 and b3 share the payload encoding: a server sets Version and
 	// serializes, again and again): what is written for a version depends on the fields and that version only, not on
-	// which version was written before.  Method HEAD is legal in b1 / b2 and not written at all in b3.
-	for _, first := range version.AllVersions {
-		sp := baseSpec(r, first)
+	// which version was written before.  Method HEAD is legal in b1 / b2 and not written at all in b3.  Odd calls serialize
+	// a fresh copy of the template in the target version only, even calls a fresh copy that has first been serialized in
+	// the other versions: same logical input, same bytes (the template itself is never serialized).
+	for _, target := range version.AllVersions {
+		sp := baseSpec(r, target)
 		sp.method = "HEAD"
-		ex := buildSigned(sp, kc).e
-		first := first
-		sers = append(sers, &pser{name: "DumpExchangeHeaders of one HEAD exchange in every version, starting with " + string(first), seqOnly: true, run: func(io.Writer) []byte {
-			var out bytes.Buffer
-			order := []version.Version{first}
-			for _, v := range version.AllVersions {
-				if v != first {
-					order = append(order, v)
+		tmpl := cloneEx(buildSigned(sp, kc).e)
+		target := target
+		calls := 0
+		sers = append(sers, &pser{name: "DumpExchangeHeaders " + string(target) + " of a HEAD exchange (fresh / after the other versions)", seqOnly: true, run: func(io.Writer) []byte {
+			calls++
+			c := cloneEx(tmpl)
+			if calls%2 == 0 {
+				for _, o := range version.AllVersions {
+					if o != target {
+						var scratch bytes.Buffer
+						c.Version = o
+						c.DumpExchangeHeaders(&scratch)
+					}
 				}
 			}
-			parts := map[version.Version][]byte{}
-			for _, v := range append(order, order...) {
-				var b bytes.Buffer
-				ex.Version = v
-				if err := ex.DumpExchangeHeaders(&b); err != nil {
-					b.WriteString("error: " + err.Error())
-				}
-				if prev, ok := parts[v]; ok && !bytes.Equal(prev, b.Bytes()) {
-					out.WriteString("<differs within one run: " + string(v) + ">")
-				}
-				parts[v] = b.Bytes()
+			c.Version = target
+			var b bytes.Buffer
+			if err := c.DumpExchangeHeaders(&b); err != nil {
+				return []byte("error: " + err.Error())
 			}
-			ex.Version = first
-			for _, v := range version.AllVersions {
-				out.WriteString(string(v) + ":")
-				out.Write(parts[v])
-			}
-			out.WriteString("method:" + ex.RequestMethod)
-			return out.Bytes()
+			return append(b.Bytes(), []byte(" method:"+c.RequestMethod)...)
 		}})
 	}
 	// Response.HeaderSha256 (what bundle signing hashes): an ordinary response, and - as an UNRELATED call that fails after
